@@ -210,6 +210,22 @@ def slot_order(tree, cls, pull_attr):
     return "true" if min(req) < min(pull) else "false"
 
 
+def slot_before_call(tree, cls, callee):
+    """statement order in <cls>.behaviour: is the worker slot requested textually before the first call of self.<callee>()?"""
+    fn = find(tree, cls, "behaviour")
+    req, call = [], []
+    for n in ast.walk(fn):
+        if isinstance(n, ast.Call) and isinstance(n.func, ast.Attribute):
+            recv = ast.unparse(n.func.value)
+            if n.func.attr == "request" and recv == "self.worker_thread":
+                req.append((n.lineno, n.col_offset))
+            if n.func.attr == callee and recv == "self":
+                call.append((n.lineno, n.col_offset))
+    if not req or not call:
+        raise Unsupported("%s.behaviour: no slot request or no %s call found" % (cls, callee))
+    return "true" if min(req) < min(call) else "false"
+
+
 def combiner_recipe_loop(tree, what):
     """Combiner.behaviour: `for edge_idx in range(<start>, len(self.in_edges)): qty = self.target_quantity_of_each_item[<index>]`
     -> the start of the range / the index expression as a function of edge_idx"""
@@ -232,6 +248,7 @@ frag("Combiner_first_ingredient_edge", "nodes/combiner.py", lambda t: combiner_r
 frag("Combiner_recipe_index", "nodes/combiner.py", lambda t: combiner_recipe_loop(t, "index"), "edge_idx", kind="idx")
 frag("Machine_slot_before_reserve", "nodes/machine.py", lambda t: slot_order(t, "Machine", "reserve_get"), "true", kind="const")
 frag("Combiner_slot_before_reserve", "nodes/combiner.py", lambda t: slot_order(t, "Combiner", "reserve_get"), "true", kind="const")
+frag("Machine_slot_before_index_draw", "nodes/machine.py", lambda t: slot_before_call(t, "Machine", "_get_in_edge_index"), "true", kind="const")
 frag("Splitter_slot_before_get", "nodes/splitter.py", lambda t: slot_order(t, "Splitter", "get"), "true", kind="const")
 
 
